@@ -40,7 +40,7 @@ def faults_for(site):
         else:
             out += [("unsupported_operand_str", '"w"'), ("unsupported_operand_bool", "true")]
     elif k == "index":
-        out += [("non_index_index_str", '"w"'), ("non_index_index_bool", "true")]
+        out += [("non_index_index_str", '"w"'), ("non_index_index_bool", "true"), ("optional_index", "zopt_i")]
     elif k == "indexee":
         out.append(("index_of_non_indexable", "zint"))
     elif k == "field":
@@ -143,6 +143,13 @@ EXTRA = [
     ("break_in_method_of_class_inside_loop", 'print "@@RUN@@"\ni = 0\nwhile i < 1 {\n  class Kb {\n    fn m(self) {\n      break\n    }\n  }\n  i = i + 1\n}\n'),
     ("break_in_if_in_function_without_loop", 'print "@@RUN@@"\nf = fn(a: int) {\n  if a > 0 {\n    break\n  }\n}\nf(1)\n'),
     ("break_after_loop_ended", 'print "@@RUN@@"\nwhile false {\n}\nif true {\n  break\n}\n'),
+    # function types are compared by parameter TYPES, not by parameter names
+    ("reassign_fn_same_parameter_names_other_types", 'print "@@RUN@@"\nsc = fn(x: int) -> int {\n  return x + 1\n}\nsc = fn(x: str) -> int {\n  return x.len()\n}\nprint sc(21)\n'),
+    ("modify_fn_same_parameter_names_other_types", 'print "@@RUN@@"\nsc = fn(x: int) -> int {\n  return x + 1\n}\ng = fn() {\n  modify sc = fn(x: str) -> int {\n    return x.len()\n  }\n}\ng()\nprint sc(21)\n'),
+    ("argument_fn_same_parameter_names_other_types", 'print "@@RUN@@"\nap = fn(f: fn(int) -> int) -> int {\n  return f(21)\n}\nprint ap(fn(x: str) -> int {\n  return x.len()\n})\n'),
+    ("field_fn_same_parameter_names_other_types", 'print "@@RUN@@"\nclass Hh {\n  cb: fn(int) -> int\n  constructor(self) {\n    self.cb = fn(x: int) -> int {\n      return x\n    }\n  }\n}\nh = Hh()\nh.cb = fn(x: str) -> int {\n  return x.len()\n}\n'),
+    ("optional_index_into_str", 'print "@@RUN@@"\npick: int? = nil\ns = "abc"\nprint s[pick]\n'),
+    ("optional_bigint_index_into_list", 'print "@@RUN@@"\npick: bigint? = B1\nl: [int...] = [4, 5]\nprint l[pick]\n'),
     ("missing_return_path", 'print "@@RUN@@"\nf = fn(a: int) -> int {\n  if a > 1 {\n    return 1\n  }\n}\nprint f(1)\n'),
     ("missing_return_entirely", 'print "@@RUN@@"\nf = fn(a: int) -> int {\n  print a\n}\nprint f(1)\n'),
     ("void_function_returns_value", 'print "@@RUN@@"\nf = fn(a: int) {\n  return a\n}\nf(1)\n'),
@@ -193,9 +200,38 @@ EXTRA = [
 ]
 
 
+# faults that need more than one file: a fault INSIDE an imported module (whatever import form reaches it first),
+# and same-named classes of two modules (a class is identified by its file as well)
+_LIBOK = 'export area: fn(int) -> int = fn(a: int) -> int {\n  return a * 2\n}\nexport type Tq int\n'
+_MODULE_FAULTS = [("wrong_initialiser", 'bad: int = "s"\n'), ("unknown_name", 'bad = zz_undefined + 1\n'),
+                  ("non_bool_condition", 'if 1 {\n  bad = 1\n}\n'), ("wrong_argument_type", 'bad = area("s")\n'),
+                  ("wrong_typed_reassignment", 'okv = 1\nokv = "s"\n')]
+_IMPORT_FORMS = [("names", 'import area from lib\nprint area(2)\n'), ("type_only", 'import type Tq from lib\nq: Tq = 1\nprint q\n'),
+                 ("names_and_type", 'import area, type Tq from lib\nprint area(2)\n'), ("plain", 'import lib\nprint lib.area(2)\n'),
+                 ("names_then_plain", 'import area from lib\nimport lib\nprint lib.area(2)\n'),
+                 ("through_middle_module", 'import mid\nprint mid.twice(2)\n')]
+for _fn, _fl in _MODULE_FAULTS:
+    for _in, _il in _IMPORT_FORMS:
+        _files = {"main.ms": 'print "@@RUN@@"\n' + _il, "lib.ms": _LIBOK + _fl}
+        if _in == "through_middle_module":
+            _files["mid.ms"] = 'import area from lib\nexport twice: fn(int) -> int = fn(a: int) -> int {\n  return area(a)\n}\n'
+        EXTRA.append(("module_fault:%s:import_%s" % (_fn, _in), _files))
+_PIX = 'export class Point {\n  x: int\n  y: int\n  constructor(self, x: int, y: int) {\n    self.x = x\n    self.y = y\n  }\n}\n'
+_LAB = 'export class Point {\n  x: str\n  y: str\n  constructor(self, x: str, y: str) {\n    self.x = x\n    self.y = y\n  }\n}\n'
+EXTRA.append(("same_named_class_of_another_module_as_argument",
+              {"main.ms": 'print "@@RUN@@"\nimport Point from pixels\nimport labels\nleft = fn(p: Point) -> int {\n  return p.x\n}\ncell = labels.Point("C", "7")\nv = left(cell)\nprint v + 1\n',
+               "pixels.ms": _PIX, "labels.ms": _LAB}))
+EXTRA.append(("same_named_class_of_another_module_assigned",
+              {"main.ms": 'print "@@RUN@@"\nimport Point from pixels\nimport labels\np = Point(1, 2)\np = labels.Point("C", "7")\nprint p.x + 1\n',
+               "pixels.ms": _PIX, "labels.ms": _LAB}))
+EXTRA.append(("same_named_class_of_another_module_in_list",
+              {"main.ms": 'print "@@RUN@@"\nimport Point from pixels\nimport labels\nl: [Point...] = [Point(1, 2)]\nl.push(labels.Point("C", "7"))\nprint l.len()\n',
+               "pixels.ms": _PIX, "labels.ms": _LAB}))
+
+
 def work_extra(item):
     name, src = item
-    files = {"main.ms": src}
+    files = dict(src) if isinstance(src, dict) else {"main.ms": src}
     if src is None and name == "other_class_instance_for_imported_self_param":
         files = {"main.ms": 'print "@@RUN@@"\nimport Sh from lib\nclass Cv {\n  w: int\n  constructor(self) {\n    self.w = 1\n  }\n  fn go(self) -> bool {\n    q = Sh(3)\n    return q.same(self)\n  }\n}\nc = Cv()\nprint c.go()\n',
                  "lib.ms": 'export class Sh {\n  s: int\n  constructor(self, s: int) {\n    self.s = s\n  }\n  fn same(self, o: Self) -> bool {\n    return self.s == o.s\n  }\n}\n'}
